@@ -1,3 +1,4 @@
+from copy import deepcopy
 import json
 from typing import IO, Any, Tuple, List
 
@@ -55,8 +56,8 @@ class AvroJSONDecoder:
     def read_value(self, symbol):
         if isinstance(self._current, dict):
             if self._key not in self._current:
-                # Use the default value
-                return symbol.get_default()
+                # Use (a copy of) the default value
+                return deepcopy(symbol.get_default())
             else:
                 return self._current[self._key]
         else:
@@ -71,7 +72,9 @@ class AvroJSONDecoder:
         self._push()
         if isinstance(self._current, dict) and self._key is not None:
             if self._key not in self._current:
-                self._current = symbol.get_default()
+                # iter_array and iter_map consume what they iterate over, so
+                # work on a copy and leave the schema's default alone
+                self._current = deepcopy(symbol.get_default())
             else:
                 # self._current = self._current.pop(self._key)
                 self._current = self._current[self._key]
@@ -212,7 +215,9 @@ class AvroJSONDecoder:
             # of the union field
             if self._key not in self._current:
                 self._current[self._key] = {
-                    alternative_symbol.labels[0]: alternative_symbol.get_default()
+                    alternative_symbol.labels[0]: deepcopy(
+                        alternative_symbol.get_default()
+                    )
                 }
 
             if self._current[self._key] is None:
